@@ -255,6 +255,9 @@ fn thread_body(session: &Session) -> ThreadResult {
 
     let mut sim = Sim::default();
     sim.stdin = session.stdin.clone();
+    // How much one read hands out is a property of the pipe, not of the program: drawn from the
+    // stream's own content so that one scenario is one behaviour
+    sim.stdin_chunk = *[1usize, 1, 2, 7, 64, 4096, usize::MAX].get((crate::rng::fnv(&session.stdin) % 7) as usize).unwrap_or(&1);
     sim.fuel = session.fuel;
     sim.max_idle_ticks = session.max_idle;
     sim.max_commands = session.max_commands;
